@@ -252,3 +252,41 @@ Theorem C13_family_lazy_projection : forall ttls n now0 ops f, (f < n)%nat ->
   lobs_on f ops (snd (mlrun ttls (mlinit n now0) ops)) = snd (lrun (ttls f) (linit now0) (lproj f ops)).
 Proof. exact lazy_family_projection. Qed.
 Print Assumptions C13_family_lazy_projection.
+
+(* ---- T8 values are opaque payloads: relabelling the values bodies return (rho arbitrary, e.g. everything to one
+   value, or the unique integers of the harness to None / 0 / False / '' ...) commutes with every step and every
+   history: hit or miss, evictions, cache sizes and the body-run log never depend on what a body returned, and a
+   hit returns the (relabelled) stored value *)
+Theorem C13_values_opaque_step : forall rho K keqb kf valid cap (st : astate K) o,
+  astep K keqb kf valid cap (rl_astate rho K st) (rl_aop rho o) =
+  (rl_astate rho K (fst (astep K keqb kf valid cap st o)), rl_res rho (snd (astep K keqb kf valid cap st o))).
+Proof. exact astep_relabel. Qed.
+Print Assumptions C13_values_opaque_step.
+
+Theorem C13_values_opaque : forall rho K keqb kf valid cap ops,
+  snd (arun K keqb kf valid cap ainit (map (rl_aop rho) ops)) =
+    map (rl_obs rho) (snd (arun K keqb kf valid cap ainit ops)) /\
+  runs (fst (arun K keqb kf valid cap ainit (map (rl_aop rho) ops))) =
+    runs (fst (arun K keqb kf valid cap ainit ops)).
+Proof. exact values_opaque. Qed.
+Print Assumptions C13_values_opaque.
+
+Theorem C13_inst_values_opaque : forall rho K keqb kf valid ops,
+  snd (prun K keqb kf valid pinit (map (rl_pop rho) ops)) =
+    map (rl_pobs rho) (snd (prun K keqb kf valid pinit ops)) /\
+  pruns (fst (prun K keqb kf valid pinit (map (rl_pop rho) ops))) =
+    pruns (fst (prun K keqb kf valid pinit ops)).
+Proof. exact inst_values_opaque. Qed.
+Print Assumptions C13_inst_values_opaque.
+
+Theorem C13_inst_values_opaque_step : forall rho K keqb kf valid (st : pstate K) o,
+  pstep K keqb kf valid (rl_pstate rho K st) (rl_pop rho o) =
+  (rl_pstate rho K (fst (pstep K keqb kf valid st o)), rl_res rho (snd (pstep K keqb kf valid st o))).
+Proof. exact pstep_relabel. Qed.
+Print Assumptions C13_inst_values_opaque_step.
+
+Theorem C13_lazy_values_opaque_step : forall rho ttl st o,
+  lstep ttl (rl_lstate rho st) (rl_lop rho o) =
+  (rl_lstate rho (fst (lstep ttl st o)), rl_res rho (snd (lstep ttl st o))).
+Proof. exact lstep_relabel. Qed.
+Print Assumptions C13_lazy_values_opaque_step.
